@@ -1,5 +1,6 @@
 import GlueVerif.Lemmas.Geometry
 import GlueVerif.Lemmas.GeometryPoly
+import GlueVerif.Lemmas.GeometryOps
 import GlueVerif.Props.C20
 /-!
 # C08 — region containment is geometrically exact and equivariant under move / rotate / copy
@@ -223,21 +224,8 @@ theorem polygon_centroid_rotate (ctr : Pt) (c s : Rat) (hu : c * c + s * s = 1) 
 its own `center()`); the other classes have no `rotate_to`. -/
 theorem center_rotateTo (roi : Roi) (c s : Rat) (hu : c * c + s * s = 1)
     (ho : (Spec.orient roi).1 * (Spec.orient roi).1 + (Spec.orient roi).2 * (Spec.orient roi).2 = 1)
-    (hdef : roi.defined = true) : (roi.rotateTo c s).center = roi.center := by
-  cases roi with
-  | poly g =>
-    have hne : g.vs ≠ [] := by intro h; simp [Roi.defined, h] at hdef
-    simp only [Spec.orient] at ho
-    have hd : (c * g.c + s * g.s) * (c * g.c + s * g.s) + (s * g.c - c * g.s) * (s * g.c - c * g.s) = 1 := by
-      have : (c * g.c + s * g.s) * (c * g.c + s * g.s) + (s * g.c - c * g.s) * (s * g.c - c * g.s)
-          = (c * c + s * s) * (g.c * g.c + g.s * g.s) := by ring
-      rw [this, hu, ho, mul_one]
-    simp only [Roi.rotateTo]
-    split
-    · rfl
-    · show polyCenter (g.vs.map _) = polyCenter g.vs
-      rw [polyCenter_rot _ _ _ hd g.vs hne, rotAbout_self]
-  | _ => rfl
+    (hdef : roi.defined = true) : (roi.rotateTo c s).center = roi.center :=
+  center_rotateTo' roi c s hu ho hdef
 
 /-- The band used by the check contains the boundary: a point outside `polyNear` (any width) lies
 on no edge. -/
@@ -249,6 +237,39 @@ example : offBoundary [(0, 0), (4, 0), (0, 3)] (1, 1) ∧ polyNear [(0, 0), (4, 
     crossParity ([(0, 0), (4, 0), (0, 3)].map (rotAbout (1, 1) (3/5) (4/5))) (rotAbout (1, 1) (3/5) (4/5) (1, 1)) = true := by
   refine ⟨?_, by decide +kernel, by decide +kernel⟩
   refine ⟨?_, ?_, ?_, trivial⟩ <;> (rintro ⟨h1, h2⟩; norm_num [relPt] at h1)
+
+/-! ## sequences of operations -/
+
+/-- **`ops_equivariant_spec`** — any list of `move_to(t)` / `rotate_to(θ)` / `copy()` / save-restore,
+every class: the region described by the parameters the code ends up with contains `q` iff the
+*original* region contains `q` pulled back through the rigid motions the property prescribes
+(translation by target − current centre; rotation about the current centre by new − current angle);
+the reported centre is the prescribed centre (the last `move_to` target) and the stored angle the
+prescribed angle.  `OpsOk`: rotations are unit vectors and a polygon is not asked to turn by a
+non-zero angle inside `rotate_to`'s `1e-9` skip window; `OffB`: polygons are compared at points whose
+pre-image lies on no edge. -/
+theorem ops_equivariant_spec (roi : Roi) (ops : List Op) (q : Pt) (hdef : roi.defined = true)
+    (hu : (Spec.orient roi).1 * (Spec.orient roi).1 + (Spec.orient roi).2 * (Spec.orient roi).2 = 1)
+    (hok : OpsOk roi ops) (hoff : OffB roi (Spec.pullback (Spec.run roi ops).motions q)) :
+    Spec.contains (Impl.applyOps roi ops) q = Spec.containsAfter roi ops q ∧
+    (Impl.applyOps roi ops).center = (Spec.run roi ops).ctr ∧
+    Spec.orient (Impl.applyOps roi ops) = ((Spec.run roi ops).c, (Spec.run roi ops).s) :=
+  ops_spec roi ops q hdef hu hok hoff
+
+/-- **`ops_equivariant`** — the same for the coded `contains()` of the final region, off its band. -/
+theorem ops_equivariant (roi : Roi) (ops : List Op) (q : Pt) (ε : Rat) (hdef : roi.defined = true)
+    (hu : (Spec.orient roi).1 * (Spec.orient roi).1 + (Spec.orient roi).2 * (Spec.orient roi).2 = 1)
+    (hok : OpsOk roi ops) (hoff : OffB roi (Spec.pullback (Spec.run roi ops).motions q))
+    (hfin : ImplHyp (Impl.applyOps roi ops) ε) (hfar : (Impl.applyOps roi ops).near q ε = false) :
+    Impl.contains (Impl.applyOps roi ops) q = Spec.containsAfter roi ops q := by
+  rw [impl_eq_spec _ q ε hfin hfar]
+  exact (ops_spec roi ops q hdef hu hok hoff).1
+
+-- the hypotheses are satisfiable by non-trivial sequences
+example : OpsOk (.poly { vs := [(0, 0), (4, 0), (0, 3)] }) [.move (5, 5), .rotate (3/5) (4/5), .copy] :=
+  ⟨trivial, ⟨by norm_num, Or.inl (by decide +kernel)⟩, trivial, trivial⟩
+example : OpsOk (.rect ⟨0, 4, 0, 2, 1, 0⟩) [.rotate (3/5) (4/5), .move (1, 1), .roundtrip, .rotate 0 (-1)] :=
+  ⟨⟨by norm_num, trivial⟩, trivial, trivial, ⟨by norm_num, trivial⟩, trivial⟩
 
 /-! ## copy, save / restore, array arrangement, chunking -/
 
